@@ -9,6 +9,29 @@ COMMON_NOTE = ("Trusted base: CPython 3.12, numpy/scipy, icontract (or vlib.atta
                "(independent of molgri, see DESIGN.md section 3.2/5). Decides only the executions produced; nothing is 'verified'.")
 
 CHECKS = {
+    "C13": dict(
+        technique="runtime monitors (postconditions with snapshots on merge_matrix_cells, delete_rate_cells, SQRA.cut_and_merge) against a partition/lumping model; exhaustive operation histories + random hostile join lists",
+        text="Every call of the real merge/delete functions is checked against a one-step lumping model computed from the incoming matrix, "
+             "incoming index list (snapshot) and join/remove list; in addition the workload threads the index list through whole histories and "
+             "checks every off-diagonal entry against the sum over the ORIGINAL matrix (powers of two: exact). Exhaustive over all set "
+             "partitions, deletion subsets and operation sequences (n<=4, <=2 ops quick; n<=5, <=3 ops thorough), random n<=12 with stale, "
+             "repeated and overlapping members; dense-vs-sparse, one-shot-vs-stepwise and permutation equivalences; cut_and_merge with the four "
+             "limit combinations against an independently computed merge/delete set.",
+        design_ref="5/C13"),
+    "C01": dict(
+        technique="runtime monitor (postcondition + input snapshot on SQRA.get_rate_matrix) against the closed-form SqRA entry formula, log-space detailed balance, metamorphic re-calls",
+        text="Every call of the real SQRA.get_rate_matrix is compared entry by entry with D*S/(h*V_i)*exp(min(dE,500)*1000/(2RT)) computed from the "
+             "object's own inputs; pattern, diagonal, row sums, detailed balance (log space, pairs below the cap) and input immutability are "
+             "checked; the workload re-calls with shifted energies and scaled D. Random hostile systems (disconnected patterns, isolated rows, "
+             "gaps beyond the cap, both storage forms) n<=12; all 64 symmetric patterns for n=4.",
+        design_ref="5/C01"),
+    "C16": dict(
+        technique="runtime monitors (postconditions on TranslationParser.__init__, get_increments, get_between_radii) against an exact-rational re-reading of the same text",
+        text="Every radial-grid text the workload (or any other check) hands to the real parser is re-read by the harness' own Fraction-based reader; "
+             "radii, order, unit conversion, hash, increments and shell boundaries are compared. Workload: thousands of generated texts in all "
+             "accepted syntaxes with hostile whitespace/number styles, ascending and descending parameterisations, negative entries, "
+             "same-array syntax groups, plus all short decimal lists.",
+        design_ref="5/C16"),
     "C12": dict(
         technique="runtime monitor (postcondition on MSM.get_one_tau_transition_matrix) against an executable counting model; exhaustive short trajectories + random long ones",
         text="Every call of the real MSM.get_one_tau_transition_matrix made by the workload is compared entry by entry with a 15-line "
